@@ -223,6 +223,21 @@ TABLE["C04"][2].extend([
    ("multiply_exec_den_outputs", "C04_multiply_executable_outputs", "... hence the outputs of the product are the Kronecker products of the operands' outputs, output (o1,o2) at o1-major position"),
 ])
 TABLE["C04"] = (TABLE["C04"][0], ["Base", "Circ", "Multiply", "Scalar", "Tensor", "Pexpr", "Exec", "Ops", "Struct", "OpsProps", "Link", "LinkMul"], TABLE["C04"][2])
+TABLE["C02"][2].extend([
+   ("sum_collapse", "C02_rule_sum_collapse", "optimisation rule apply_sum_collapse: a sum layer applied to a sum layer is one sum layer with the matrix product of the weights (any commutative semiring, no shape hypothesis)"),
+   ("sum_collapse_node", "C02_rule_sum_collapse_node", "... at circuit-node level, inner sum of any arity"),
+   ("tucker_fuse_n", "C02_rule_tucker", "apply_tucker / TorchTuckerLayer: a sum layer over an n-ary Kronecker product is the explicit contraction of the weight (viewed with one axis per input, first input major) with the inputs"),
+   ("candecomp_fuse", "C02_rule_candecomp", "apply_candecomp / TorchCPTLayer: a sum layer over an n-ary Hadamard product is sum_i W[o,i] prod_j x_j[i]"),
+   ("mkron_mixed", "C02_rule_kronecker_weight", "a sum layer whose weight is a Kronecker product of matrices (torch.kron order) applied to a Kronecker product of vectors is the Kronecker product of the two applications"),
+   ("dense_tensordot", "C02_rule_dense_tensordot", "apply_dense_tensordot: the dense layer with weight W1 (x) W2 equals the two tensor-dot layers (reshape / permute / contract convention of TorchTensorDotLayer.forward)"),
+   ("tdot_kron_split", "C02_rule_tensordot_tensordot", "apply_tensordot_tensordot: a tensor-dot layer with Kronecker weight splits into two tensor-dot layers"),
+   ("reduce1_outer0", "C02_rule_reduce_outer_a", "apply_sum_outer_prod_einsum: reduce-sum over axis 1 of the outer product along axis 0 is the matrix of dot products (einsum jl,kl->jk, flattened)"),
+   ("reduce0_outer0", "C02_rule_reduce_outer_b", "... reduce-sum over axis 0 of the outer product along axis 0 (einsum jl,kl->l)"),
+   ("reduce1_outer1", "C02_rule_reduce_outer_c", "... reduce-sum over axis 1 of the outer product along axis 1 (einsum nj,nk->n)"),
+   ("reduce0_outer1", "C02_rule_reduce_outer_d", "... reduce-sum over axis 0 of the outer product along axis 1 (einsum nj,nk->jk, flattened)"),
+   ("log_softmax_fuse", "C02_rule_log_softmax", "apply_log_softmax: log o softmax = log_softmax over any structure with exp / log / division satisfying log(x/y) = log x - log y on positives and log(exp x) = x"),
+])
+TABLE["C02"] = (TABLE["C02"][0], TABLE["C02"][1] + ["Base", "Circ", "Algebra", "Optim"], TABLE["C02"][2])
 
 if __name__ == "__main__":
     for pid in (sys.argv[1:] or TABLE):
